@@ -14,6 +14,7 @@ import (
 	"strings"
 
 	"github.com/ctessum/geom"
+	ghex "github.com/ctessum/geom/encoding/hex"
 	"github.com/ctessum/geom/encoding/wkb"
 
 	"verif/harness/vproto"
@@ -126,16 +127,71 @@ func implRdscript(p *vproto.Parser) string {
 	for p.Next() != "|" {
 	}
 	rd := &scriptReader{evs: parseEvents(p.T[p.I:])}
-	var b strings.Builder
+	// the values are kept and printed only after the last call (a result that shares memory with a later
+	// call's result or with the reader's buffers is seen changed)
+	var kept []geom.Geom
+	var at []int
+	last := ""
 	for i := 0; i <= n; i++ {
 		g, err := wkb.Read(rd)
 		if err != nil {
-			b.WriteString(errClass(err))
+			last = errClass(err)
 			break
 		}
-		fmt.Fprintf(&b, "ok %s @%d ", vproto.GeomToks(g), rd.delivered)
+		kept = append(kept, g)
+		at = append(at, rd.delivered)
 	}
+	var b strings.Builder
+	for i, g := range kept {
+		fmt.Fprintf(&b, "ok %s @%d ", vproto.GeomToks(g), at[i])
+	}
+	b.WriteString(last)
 	return strings.TrimSpace(b.String())
+}
+
+// decbatch <k> | <bo> <geom> ...: every value is encoded, all encodings are decoded (wkb.Decode and hex.Decode),
+// the encodings are wiped, and only then are the decoded values read.
+func implDecbatch(p *vproto.Parser) string {
+	k := p.Int()
+	var bufs [][]byte
+	var hexes []string
+	for j := 0; j < k; j++ {
+		if p.Next() != "|" {
+			panic("decbatch: separator expected")
+		}
+		o := bo(p.Next())
+		g := p.Geom()
+		buf, err := wkb.Encode(g, o)
+		if err != nil {
+			return "encerr"
+		}
+		bufs = append(bufs, append([]byte(nil), buf...))
+		hexes = append(hexes, hex.EncodeToString(buf))
+	}
+	var kept, keptHex []geom.Geom
+	for j := range bufs {
+		g, err := wkb.Decode(bufs[j])
+		if err != nil {
+			return "decerr " + strconv.Itoa(j)
+		}
+		kept = append(kept, g)
+		g, err = ghex.Decode(hexes[j])
+		if err != nil {
+			return "hexdecerr " + strconv.Itoa(j)
+		}
+		keptHex = append(keptHex, g)
+	}
+	for j := range bufs {
+		for i := range bufs[j] {
+			bufs[j][i] = 0xee
+		}
+	}
+	var b strings.Builder
+	b.WriteString("late")
+	for j := range kept {
+		fmt.Fprintf(&b, " ok %s @%d ok %s @%d", vproto.GeomToks(kept[j]), j, vproto.GeomToks(keptHex[j]), j)
+	}
+	return b.String()
 }
 
 // chunkWriter is an io.Writer that is not a *bytes.Buffer: it keeps every Write call's bytes in a chunk of its
@@ -198,15 +254,22 @@ func implSeqwr(p *vproto.Parser) string {
 		evs = append(evs, ev{kind: 'd', data: append([]byte(nil), all[i:min(i+7, len(all))]...)})
 	}
 	rd := &scriptReader{evs: evs}
+	var kept []geom.Geom
+	var at []int
+	last := ""
 	for i := 0; i < n; i++ {
 		g, err := wkb.Read(rd)
 		if err != nil {
-			fmt.Fprintf(&b, " %s", errClass(err))
+			last = " " + errClass(err)
 			break
 		}
-		fmt.Fprintf(&b, " ok %s @%d", vproto.GeomToks(g), rd.delivered)
+		kept = append(kept, g)
+		at = append(at, rd.delivered)
 	}
-	return b.String()
+	for i, g := range kept { // read only now
+		fmt.Fprintf(&b, " ok %s @%d", vproto.GeomToks(g), at[i])
+	}
+	return b.String() + last
 }
 
 // wrfail <limit> <bo> <geom>: wkb.Write into a writer that accepts `limit` bytes and then fails with its own error.
@@ -298,13 +361,37 @@ func genStream(out *bufio.Writer, r *vproto.Rng, n int) {
 		for j := range ps {
 			ps[j] = geom.Point{X: float64(j), Y: coord(r)}
 		}
-		fmt.Fprintf(out, "rdmix %d 2 %s %s\n", r.U64()%1000000007, vproto.GeomToks(geom.LineString(ps)), vproto.GeomToks(geom.Polygon{ps[:5], ps}))
+		for rep := 0; rep < 6; rep++ {
+			fmt.Fprintf(out, "rdmix %d 2 %s %s\n", r.U64()%1000000007, vproto.GeomToks(geom.LineString(ps)), vproto.GeomToks(geom.Polygon{ps[:5], ps}))
+		}
+		// the same, truncated inside a later chunk of the point list, through Decode
+		for rep := 0; rep < 4; rep++ {
+			buf, err := wkb.Encode(geom.LineString(ps), bo([]string{"X", "N"}[rep%2]))
+			if err == nil && len(buf) > 9+16*1024 {
+				cutAt := 9 + 16*1024 + r.Intn(len(buf)-9-16*1024)
+				fmt.Fprintf(out, "decin x%s\n", hex.EncodeToString(buf[:cutAt]))
+			}
+		}
 	}
 	for i := 0; i < n/15; i++ {
 		k := r.Range(1, 4)
 		fmt.Fprintf(out, "seqwr %d", k)
 		for j := 0; j < k; j++ {
 			fmt.Fprintf(out, " | %s %s", []string{"X", "N"}[r.Intn(2)], vproto.GeomToks(small()))
+		}
+		fmt.Fprintln(out)
+	}
+	for i := 0; i < n/15; i++ {
+		k := r.Range(2, 5)
+		fmt.Fprintf(out, "decbatch %d", k)
+		same := r.Intn(3) == 0 // the same type and sizes several times (a result buffer reused by size or type)
+		g0 := small()
+		for j := 0; j < k; j++ {
+			g := small()
+			if same {
+				g = reshuffle(r, g0)
+			}
+			fmt.Fprintf(out, " | %s %s", []string{"X", "N"}[r.Intn(2)], vproto.GeomToks(g))
 		}
 		fmt.Fprintln(out)
 	}
@@ -342,4 +429,50 @@ func genStream(out *bufio.Writer, r *vproto.Rng, n int) {
 	}
 }
 
-var _ = io.EOF
+// reshuffle returns a value of the same type, nesting and sizes as g with fresh coordinates.
+func reshuffle(r *vproto.Rng, g geom.Geom) geom.Geom {
+	pt := func() geom.Point { return geom.Point{X: coord(r), Y: coord(r)} }
+	path := func(p []geom.Point) []geom.Point {
+		q := make([]geom.Point, len(p))
+		for i := range q {
+			q[i] = pt()
+		}
+		return q
+	}
+	paths := func(p []geom.Path) []geom.Path {
+		q := make([]geom.Path, len(p))
+		for i := range q {
+			q[i] = path(p[i])
+		}
+		return q
+	}
+	switch v := g.(type) {
+	case geom.Point:
+		return pt()
+	case geom.MultiPoint:
+		return geom.MultiPoint(path(v))
+	case geom.LineString:
+		return geom.LineString(path(v))
+	case geom.MultiLineString:
+		q := make(geom.MultiLineString, len(v))
+		for i := range q {
+			q[i] = path(v[i])
+		}
+		return q
+	case geom.Polygon:
+		return geom.Polygon(paths(v))
+	case geom.MultiPolygon:
+		q := make(geom.MultiPolygon, len(v))
+		for i := range q {
+			q[i] = paths(v[i])
+		}
+		return q
+	case geom.GeometryCollection:
+		q := make(geom.GeometryCollection, len(v))
+		for i := range q {
+			q[i] = reshuffle(r, v[i])
+		}
+		return q
+	}
+	return g
+}
